@@ -427,6 +427,18 @@ func (e *Engine) conv(tdst, tsrc types.Type, x value) value {
 			return x
 		}
 		if sl, ok := us.(*types.Slice); ok {
+			if it, ok := intTypeOf(sl.Elem()); ok && it.Bits == 32 { // string([]rune)
+				xs, _ := x.([]value)
+				rs := make([]rune, len(xs))
+				for i, v := range xs {
+					t := v.(*Term)
+					if !t.K {
+						unsup("string([]rune) of symbolic runes")
+					}
+					rs[i] = rune(t.C.Int64())
+				}
+				return string(rs)
+			}
 			if _, ok := intTypeOf(sl.Elem()); ok {
 				switch xs := x.(type) {
 				case sliceS:
@@ -461,6 +473,17 @@ func (e *Engine) conv(tdst, tsrc types.Type, x value) value {
 		}
 	}
 	if sl, ok := ud.(*types.Slice); ok && isStringT(tsrc) {
+		if it, ok := intTypeOf(sl.Elem()); ok && it.Bits == 32 { // []rune(string)
+			str, isK := x.(string)
+			if !isK {
+				unsup("[]rune(symbolic string)")
+			}
+			var out []value
+			for _, r := range str {
+				out = append(out, IntC(int64(r)))
+			}
+			return out
+		}
 		if it, ok := intTypeOf(sl.Elem()); ok && it.Bits == 8 {
 			switch s := x.(type) {
 			case string:
